@@ -300,9 +300,37 @@ func main() {
 		}
 	}
 	res := vbfs.Run(vbfs.Config{Depth: depth, Deadline: a.Deadline(), FirstOps: first}, sys)
+	// the same search (one level shallower) from a non-initial state: a registration that was used has lived out its six
+	// hours and has been swept - whatever the registry keeps around from earlier lifetimes (recycled records, caches)
+	// must not change how later registrations age
+	seedOps := []string{"validate:a.min.4", "connect:a.min.4", "adv:5h49m58s", "adv:9m59s", "adv:2s", "adv:2s", "sweep"}
+	sys2 := &vbfs.System{OpNames: ops, New: func() vbfs.Instance {
+		in := newInst(specs, ops)
+		for _, so := range seedOps {
+			for i, o := range ops {
+				if o == so {
+					in.Apply(i)
+				}
+			}
+		}
+		return in
+	}}
+	res2 := vbfs.Run(vbfs.Config{Depth: depth - 1, Deadline: a.Deadline(), FirstOps: first}, sys2)
+	res.States += res2.States
+	res.Transitions += res2.Transitions
+	if !res2.Exhaustive {
+		res.Exhaustive, res.Cap = false, res2.Cap
+	}
+	for k, n := range res2.ViolCounts {
+		res.ViolCounts[k] += n
+	}
+	for _, v := range res2.Violations {
+		v.History = append(append([]string{}, seedOps...), v.History...)
+		res.Violations = append(res.Violations, v)
+	}
 	o := &vh.Out{Name: fmt.Sprintf("bfs:%s:shard%d/%d", a.Scenario, a.ShardI, a.ShardN), Evaluations: res.Transitions, Nontrivial: res.States, States: res.States, Transitions: res.Transitions, Traces: res.Transitions,
 		Exhaustive: res.Exhaustive, Cap: res.Cap, WallS: res.WallS, ViolCounts: res.ViolCounts,
-		Extra: map[string]any{"depth_completed": res.DepthCompleted, "max_depth": res.MaxDepth, "alphabet": ops}}
+		Extra: map[string]any{"depth_completed": res.DepthCompleted, "max_depth": res.MaxDepth, "alphabet": ops, "second_search_from": seedOps, "second_search_depth_completed": res2.DepthCompleted}}
 	for _, v := range res.Violations {
 		o.Violations = append(o.Violations, &vh.Violation{Key: v.Key, What: v.What, Replay: map[string]any{"history": v.History, "scenario": a.Scenario}})
 	}
